@@ -113,6 +113,39 @@ fn gen(rng: &mut Rng, _i: u64) -> String {
 			_ => qs.push(format!("vcstr:{}", va(rng, a))),
 		}
 	}
+	// ragged tails: a terminated read whose available bytes end in the middle of an element, with the
+	// partial element completed to the sentinel by what lies beyond (zeros planted across the end)
+	let mut img = img;
+	if img.fill != 0 {
+		let mut ends: Vec<(usize, u32)> = Vec::new(); // (buffer offset where the slice ends, rva of that offset)
+		if file {
+			for s in &spec.secs {
+				let e = s.prd as u64 + s.srd as u64;
+				if s.srd >= 24 && e <= len as u64 && (s.prd as usize) >= hdr_end && s.va as u64 + (s.srd as u64) < 0xFFFF_0000 && s.va as u64 >= spec.soh as u64 {
+					ends.push((e as usize, s.va + s.srd));
+				}
+			}
+		}
+		else if len > hdr_end + 64 {
+			ends.push((len, len as u32));
+		}
+		for (e, erva) in ends {
+			for sz in [2usize, 4, 8] {
+				let r = (place + e) % sz;
+				if r == 0 { continue; }
+				img.pokes.push((e - r, vec![0u8; sz]));
+				for k in [0usize, 1, 3] {
+					let back = (r + k * sz) as u32;
+					if (erva as usize) < r + k * sz + 1 { continue; }
+					let a = erva - back;
+					qs.push(format!("sent:{}:{}:0", a, sz));
+					let v = base.wrapping_add(a as u64);
+					qs.push(format!("vsent:{}:{}:0", if pe64 { v } else { v & 0xFFFF_FFFF }, sz));
+				}
+				break;
+			}
+		}
+	}
 	format!(
 		"view fmt={} file={} place={} {} soh={} soi={} base={} setbase={} secs={} q={}",
 		if pe64 { 64 } else { 32 }, file as u8, place, img.encode(), spec.soh, spec.soi, spec.image_base,
